@@ -439,7 +439,7 @@ def runOps (cw : Nat → Nat) : Term → List Op → Term × List (List Ev)
     clean; a printable character is clean at `t` when the active screen is well formed and the
     write does not start on a continuation cell (`TextClean`, the hypotheses of
     `TM.C03.put_keep_eq_blank`). That `Scr.inv` holds in every reachable state is the subject of
-    C02 / C03 (`TM.C02.reachable_wf`, `TM.C03.put_blank_inv`, `put_keep_inv_off_cont`). -/
+    C02 / C03 (`TM.C02.reachable_wf`, `TM.C03.put_blank_inv`, `put_keep_inv`; every width function). -/
 def CleanAt (cw : Nat → Nat) (t : Term) : Op → Prop
   | .tok (.text _ cp) => TextClean t.scr (cw cp)
   | _ => True
@@ -659,7 +659,7 @@ open Lemmas
 /-- **C20 for runs, with the invariant supplied from outside.** Let `I` be any state invariant
     of grid-buffer terminals that implies `Scr.inv` of the active screen and is preserved by the
     operations satisfying `V` (for instance `TM.Term.inv` of `Props/C02.lean`, preserved by every
-    token — `TM.C02.apply_inv_blank` — and by every resize to a size `≥ 1×1`). Then for runs of
+    token — `TM.C02.apply_inv` — and by every resize to a size `≥ 1×1`). Then for runs of
     valid operations the well-formedness part of `CleanAt` is automatic: it is enough that no
     character is written starting on a continuation cell. -/
 theorem clean_run_equivalent_of_invariant (cw : Nat → Nat) (I : Term → Prop) (V : Op → Prop)
